@@ -104,7 +104,9 @@ class Check(PropertyCheck):
     def generate(self, rng, n, tier):
         for _ in range(n):
             family, jobs = gen.gen_instance(rng, max_jobs=4, max_ops=4 if tier == "quick" else 5)
-            lines = ["new", instance_line(jobs)] + ["graph " + b for b in BUILDERS]
+            # one scenario in five: instance transformations (which return new instances) were applied to the instance before its
+            # graphs are built
+            lines = ["new", instance_line(jobs)] + (["xform"] if rng.random() < 0.2 else []) + ["graph " + b for b in BUILDERS]
             tr = gen.Tracker(jobs)
             while not tr.done():
                 j, p, m = gen.gen_valid_request(rng, tr)
